@@ -169,6 +169,74 @@ static int t_tcp (unsigned long long seed, int fam, unsigned long long total, in
 	return 0;
 }
 
+/* ---------------------------------------------------------------- stall
+ * A blocking sender with a finite timeout against a receiver that does not read for a while, then drains everything:
+ * "the concatenation of the bytes returned by successful receives equals the concatenation of the bytes REPORTED AS SENT".
+ * The sender counts what its calls report (a call that fails reports nothing), closes, and the receiver reads up to EOF:
+ * it must get exactly the reported bytes, in order — also the ones reported just before the close (a close must not
+ * throw away data that was reported as sent). */
+struct stx { PSocket *s; unsigned long long seed, reported; int timeouts, calls; char fail[160]; };
+static void *stall_sender (void *arg) {
+	struct stx *t = arg;
+	char *buf = malloc (1 << 20);
+	for (int round = 0; round < 6 && !t->fail[0]; round++) {
+		size_t n = round == 5 ? 3000 : (size_t) 1 << 20;
+		for (size_t i = 0; i < n; i++) buf[i] = (char) stream_byte (t->seed, t->reported + i);
+		PError *err = NULL;
+		pssize k = p_socket_send (t->s, buf, n, &err);
+		t->calls++;
+		if (k < 0) {
+			int code = p_error_get_code (err), nat = p_error_get_native_code (err);
+			p_error_free (err);
+			if (code == P_ERROR_IO_TIMED_OUT) { t->timeouts++; usleep (100000); continue; }
+			snprintf (t->fail, sizeof t->fail, "send failed code=%d native=%d", code, nat);
+			break;
+		}
+		if ((size_t) k > n) { snprintf (t->fail, sizeof t->fail, "send returned %zd > %zu", (ssize_t) k, n); break; }
+		t->reported += (unsigned long long) k;
+	}
+	free (buf);
+	p_socket_close (t->s, NULL);                       /* right after the last reported bytes */
+	return NULL;
+}
+static int t_stall (unsigned long long seed, int fam, int timeout_ms) {
+	int port; PError *err = NULL;
+	PSocket *l = listener (fam, 5, &port);
+	PSocket *c = p_socket_new (pfam (fam), P_SOCKET_TYPE_STREAM, P_SOCKET_PROTOCOL_TCP, &err);
+	PSocketAddress *a = p_socket_address_new (loop_addr (fam), (puint16) port);
+	if (!p_socket_connect (c, a, &err)) FAILF ("connect: %s", p_error_get_message (err));
+	PSocket *srv = p_socket_accept (l, &err);
+	if (!srv) FAILF ("accept: %s", p_error_get_message (err));
+	p_socket_set_buffer_size (c, P_SOCKET_DIRECTION_SND, 65536, NULL);
+	p_socket_set_buffer_size (srv, P_SOCKET_DIRECTION_RCV, 65536, NULL);
+	p_socket_set_timeout (c, timeout_ms);
+	struct stx t; memset (&t, 0, sizeof t); t.s = c; t.seed = seed;
+	pthread_t th; pthread_create (&th, NULL, stall_sender, &t);
+	usleep ((useconds_t) timeout_ms * 2500);            /* the sender runs into its timeout at least once */
+	unsigned long long pos = 0; char *buf = malloc (65536);
+	p_socket_set_timeout (srv, 20000);
+	for (;;) {
+		err = NULL;
+		pssize k = p_socket_receive (srv, buf, 65536, &err);
+		if (k < 0) {
+			pthread_join (th, NULL);
+			FAILF ("receive failed code=%d native=%d after %llu bytes (the sender reported %llu bytes as sent, %d timeouts, then closed)", p_error_get_code (err), p_error_get_native_code (err), pos, t.reported, t.timeouts);
+		}
+		if (k == 0) break;
+		for (pssize i = 0; i < k; i++)
+			if ((unsigned char) buf[i] != stream_byte (seed, pos + (unsigned long long) i)) {
+				pthread_join (th, NULL);
+				FAILF ("byte %llu differs from the stream the sender's successful calls reported (reported so far %llu, %d timed-out calls): bytes of a call that reported failure were delivered, or data was lost / duplicated", pos + (unsigned long long) i, t.reported, t.timeouts);
+			}
+		pos += (unsigned long long) k;
+	}
+	pthread_join (th, NULL);
+	if (t.fail[0]) FAILF ("sender: %s", t.fail);
+	if (pos != t.reported) FAILF ("received %llu bytes up to end of stream, the sender's calls reported %llu bytes as sent (%d calls, %d of them timed out)", pos, t.reported, t.calls, t.timeouts);
+	printf ("ok stall fam=%d reported=%llu received=%llu timeouts=%d\n", fam, t.reported, pos, t.timeouts);
+	return 0;
+}
+
 /* ---------------------------------------------------------------- udp */
 static int t_udp (unsigned long long seed, int fam, int st) {
 	PError *err = NULL;
@@ -561,6 +629,7 @@ int main (int argc, char **argv) {
 	if (!strcmp (argv[1], "flags") && argc == 3) return t_flags (atoi (argv[2]));
 	if (!strcmp (argv[1], "gone") && argc == 3) return t_gone (atoi (argv[2]));
 	if (!strcmp (argv[1], "eintrconn") && argc == 3) return t_eintrconn (atoi (argv[2]));
+	if (!strcmp (argv[1], "stall") && argc == 5) return t_stall (strtoull (argv[2], NULL, 10), atoi (argv[3]), atoi (argv[4]));
 	if (!strcmp (argv[1], "udpq") && argc == 4) { rs = strtoull (argv[2], NULL, 10) + 7; return t_udpq (strtoull (argv[2], NULL, 10), atoi (argv[3])); }
 	return 2;
 }
